@@ -353,6 +353,7 @@ package nbio
 //@   ensures unlocked: !holds(c.mux)                                                                          // prop C04
 //@   ensures rearm: cfgOneshot(c.p.g) && c.gSawQ ==> kMods[c.fd] > c.gMods0                                   // prop C04
 //@   ensures notoken: !c.gTok                                                                // prop C03
+//@   ensures buffers: forall q int :: box(q, "[]byte") == old(box(q, "[]byte"))
 //@   assigns everything
 //@   at lock#1 ghost { c.gMods0 = kMods[c.fd]; c.gSawQ = !c.closed && kEv[c.fd] >= 0 }
 
@@ -599,7 +600,7 @@ package nbio
 //@ func (*Conn).readStream
 //@   props C02
 //@   safety index slice nil div assert panic make
-//@   ensures same: result0 == c && (result2 == nil ==> 0 <= result1 && result1 <= len(b))                     // prop C02
+//@   ensures same: result0 == c && (result2 == nil ==> 0 <= result1 && result1 <= len(b)) && (result2 != nil ==> result1 == -1)                     // prop C02
 //@   ensures count: kRecv[c.fd] == old(kRecv[c.fd]) + ite(result1 > 0, result1, 0)                          // prop C02
 //@   assigns kRecv[c.fd], elems(b)
 //@ func (*Conn).readUDP
@@ -616,6 +617,98 @@ package nbio
 //@   note stated for stream sockets; the UDP branch (readUDP) is a trusted stub
 //@   requires streamtype: c.typ == ConnTypeTCP || c.typ == ConnTypeUnix
 //@   ensures unlocked: !holds(c.mux)
-//@   ensures got: !c.gClosedAtLock ==> result0 == c && (result2 == nil ==> 0 <= result1 && result1 <= old(len(*pdata))) && kRecv[c.fd] == old(kRecv[c.fd]) + ite(result1 > 0, result1, 0)   // prop C02
+//@   ensures got: !c.gClosedAtLock ==> result0 == c && (result2 == nil ==> 0 <= result1 && result1 <= old(len(*pdata))) && (result2 != nil ==> result1 == -1) && kRecv[c.fd] == old(kRecv[c.fd]) + ite(result1 > 0, result1, 0)   // prop C02
 //@   ensures closedret: c.gClosedAtLock ==> result1 == 0 && result2 == net.ErrClosed && kRecv[c.fd] == old(kRecv[c.fd])   // prop C02 C03
+//@   ensures stable: (forall k *Conn :: TaskKeeps(k)) && (forall q *poller :: q.g == old(q.g)) && (forall e *Engine :: e.onDataPtr == old(e.onDataPtr) && e.MaxConnReadTimesPerEventLoop == old(e.MaxConnReadTimesPerEventLoop) && e.connsUnix == old(e.connsUnix) && e.Config.BodyAllocator == old(e.Config.BodyAllocator) && e.isOneshot == old(e.isOneshot) && cfgOneshot(e) == old(cfgOneshot(e))) && *pdata == old(*pdata)
 //@   assigns everything
+
+// ---- engine start-up (C02): only what the read path relies on is stated: the default IO executor is created with
+// buffers that have room (see taskpool.NewIO). Everything else Start does (pollers, listeners) is outside this contract.
+//@ func (*Engine).AddConn
+//@   trusted
+//@   havoc
+//@   note registration of a connection with a poller: addConn is under contract (C03, C04), this wrapper is not
+//@ func (*Engine).Start
+//@   props C02
+//@   requires g != nil
+//@   assigns everything
+
+// ---- asynchronous reading (C02): at most one read task per connection at a time, and what a read returns is handed to
+// the data callback before the next read. readEvents counts the readiness events owed to the running task plus one for
+// the task itself: the thread that moves it from 0 to 1 starts the task (it hands the task the "reader token"); an event
+// that finds 1 leaves its unit for the task; an event that finds more takes its unit back. The task gives the token
+// back with the decrement that returns 0, and only then stops reading. Other threads only add a unit and, at most,
+// take that same unit back, so the counter cannot reach 0 while the task holds the token.
+// thread-local: gRTok this thread is the read task;  gLastRE what this thread's last add returned;
+//               gPend bytes returned by the last read and not yet handed to the callback;  gRErr the task closed the connection
+//@ ghost local Conn.gRTok : Bool
+//@ ghost local Conn.gLastRE : Int
+//@ ghost local Conn.gPend : Int
+//@ ghost local Conn.gRErr : Bool
+//@ ghost local Conn.gRearm : Bool
+//@ pred TaskKeeps(k *Conn) := k.gRTok == old(k.gRTok) && k.gPend == old(k.gPend) && k.gRErr == old(k.gRErr) && k.gTok == old(k.gTok) && holds(k.mux) == old(holds(k.mux)) && k.typ == old(k.typ) && k.p == old(k.p) && k.fd == old(k.fd)
+//@ fieldfunc nbio.Engine.onDataPtr
+//@   params c pdata
+//@   note the user's data callback: it reaches connections through their public methods only and does not resize or keep the buffer it is shown
+//@   havoc
+//@   ensures (forall k *Conn :: TaskKeeps(k)) && (forall q *poller :: q.g == old(q.g)) && (forall e *Engine :: e.onDataPtr == old(e.onDataPtr) && e.MaxConnReadTimesPerEventLoop == old(e.MaxConnReadTimesPerEventLoop) && e.connsUnix == old(e.connsUnix) && e.Config.BodyAllocator == old(e.Config.BodyAllocator) && e.isOneshot == old(e.isOneshot) && cfgOneshot(e) == old(cfgOneshot(e)))
+//@   ensures *pdata == old(*pdata)
+//@ fieldfunc nbio.Config.IOExecute
+//@   params f
+//@   note the IO executor runs f once, on another goroutine, with a buffer that has room (the default executor is taskpool.IOTaskPool: see its contract; for a user-supplied one this is the documented expectation)
+//@   assigns allocates
+//@ pred TaskWired(c *Conn, g *Engine) := c != nil && g != nil && c.p != nil && c.p.g == g && g.onDataPtr != nil && g.MaxConnReadTimesPerEventLoop >= 0 && g.Config.BodyAllocator != nil && 0 <= c.fd && c.fd < len(g.connsUnix) && (c.typ == ConnTypeTCP || c.typ == ConnTypeUnix)
+//@ func (*Conn).AsyncRead$2
+//@   props C02
+//@   safety nil index slice
+//@   requires handover: c.gLastRE == 1
+//@   requires thread: TaskWired(c, g) && pBuf != nil && len(*pBuf) >= 1 && !holds(c.mux) && !c.gTok
+//@   ensures released: !c.gRTok || c.gRErr   // prop C02
+//@   note on the error exit the teardown's frame (everything) is too coarse to show that the reader's buffer is untouched
+//@   ensures room: c.gRErr || len(*pBuf) >= 1            // prop C02
+//@   ensures delivered: c.gPend == 0          // prop C02
+//@   assigns everything, c.gRTok, c.gPend, c.gRErr
+//@   at entry ghost { c.gRTok = true; c.gPend = 0; c.gRErr = false }
+//@   at before:ReadAndGetConn#1 assert reader: c.gRTok && c.gPend == 0 && arg_pdata == pBuf   // prop C02
+//@   at call:ReadAndGetConn#1 ghost { c.gPend = ite(result1 > 0, result1, 0) }
+//@   at before:onDataPtr#1 assert deliver: c.gPend > 0 && len(*pBuf) == c.gPend && arg_c == rc && arg_pdata == pBuf   // prop C02
+//@   at call:onDataPtr#1 ghost { c.gPend = 0 }
+//@   at before:AddInt32#1 assert done: c.gRTok && c.gPend == 0 && arg_delta == -1   // prop C02
+//@   at call:AddInt32#1 ghost { c.gRTok = result != 0 }
+//@   at call:closeWithError#1 ghost { c.gRErr = true }
+//@   loop 1
+//@     invariant TaskWired(c, g) && pBuf != nil && len(*pBuf) >= 1 && !holds(c.mux) && !c.gTok && c.gRTok && c.gPend == 0 && !c.gRErr
+//@   loop 2
+//@     invariant TaskWired(c, g) && pBuf != nil && len(*pBuf) >= 1 && !holds(c.mux) && !c.gTok && c.gRTok && c.gPend == 0 && !c.gRErr
+//@ func (*Conn).AsyncRead
+//@   props C02
+//@   safety nil
+//@   requires c != nil && c.p != nil && c.p.g != nil && c.p.g.IOExecute != nil
+//@   assigns everything, c.gLastRE
+//@   at before:AddInt32#1 assert plus: arg_delta == 1   // prop C02
+//@   note rely: the counter is never negative, because a thread only subtracts a unit it added itself (giveback below) or, as the task, the unit it was started with or was left by an event (AsyncRead$2: done is asserted under the token); so an add of 1 returns at least 1
+//@   at call:AddInt32#1 assume rely: result >= 1
+//@   at call:AddInt32#1 ghost { c.gLastRE = result }
+//@   note an event that finds two units already there (one for the task, one owed to it) takes its own unit back: the counter stays within 0..2
+//@   at before:AddInt32#2 assert giveback: c.gLastRE > 2 && arg_delta == -1   // prop C02
+//@   note a read task is started only by the thread whose add moved the counter from 0 to 1
+//@   at before:IOExecute#2 assert first: c.gLastRE == 1   // prop C02
+// the one-shot task: no counter (the descriptor is disarmed until ResetPollerEvent re-arms it, so no second event can start
+// another task); the delivery discipline is the same, and the descriptor is re-armed on every exit but the error one
+//@ func (*Conn).AsyncRead$1
+//@   props C02 C04
+//@   safety nil index slice
+//@   requires thread: TaskWired(c, g) && g.isOneshot == cfgOneshot(g) && pbuf != nil && len(*pbuf) >= 1 && !holds(c.mux) && !c.gTok
+//@   ensures room: c.gRErr || len(*pbuf) >= 1   // prop C02
+//@   ensures delivered: c.gPend == 0            // prop C02
+//@   ensures rearmed: c.gRErr || c.gRearm       // prop C02 C04
+//@   assigns everything, c.gPend, c.gRErr, c.gRearm
+//@   at entry ghost { c.gPend = 0; c.gRErr = false; c.gRearm = false }
+//@   at before:ReadAndGetConn#1 assert reader: c.gPend == 0 && arg_pdata == pbuf   // prop C02
+//@   at call:ReadAndGetConn#1 ghost { c.gPend = ite(result1 > 0, result1, 0) }
+//@   at before:onDataPtr#1 assert deliver: c.gPend > 0 && len(*pbuf) == c.gPend && arg_c == rc && arg_pdata == pbuf   // prop C02
+//@   at call:onDataPtr#1 ghost { c.gPend = 0 }
+//@   at call:closeWithError#1 ghost { c.gRErr = true }
+//@   at call:ResetPollerEvent#1 ghost { c.gRearm = true }
+//@   loop 1
+//@     invariant TaskWired(c, g) && g.isOneshot == cfgOneshot(g) && pbuf != nil && len(*pbuf) >= 1 && !holds(c.mux) && !c.gTok && c.gPend == 0 && !c.gRErr && !c.gRearm
